@@ -133,6 +133,11 @@ def clone(X, node):
         n = X.binop(X.rtok[node.fields['op'].lo], clone(X, node.fields['LHS']), clone(X, node.fields['RHS']))
     elif c == 'UnaryOpExpr':
         n = X.unop(X.rtok[node.fields['op'].lo], clone(X, node.fields['element']))
+    elif c == 'CallExpr' and isinstance(node.fields.get('name'), tuple) and node.fields['name'][1]:
+        a = node.fields.get('args')
+        n = X.call(node.fields['name'][1], [clone(X, x) for x in (a.items if isinstance(a, Vec) else [])])
+    elif c == 'ArraySubscriptExpr':
+        n = X.sub(node.fields['name'][1], clone(X, node.fields['expr']))
     else:
         raise AnalysisBroken('clone ' + c)
     n.fields['constValue'] = node.fields.get('constValue')
@@ -196,6 +201,81 @@ def rule_rewrite(rep, idx):
             node = X.const_prop(X.unop(op, mk()))
             # and/or results are values of their operands: ~ of them is defined for every operand value, so use the full domain
             check('%s %s' % (op, name), X, node, pos(fu.node) + ' xcmp::OptimiseExpr::visitPost(UnaryOpExpr&)', ())
+
+
+def eval_trace(X, node, env):
+    """(value, sorted list of the calls / array elements evaluated) of an abstract tree under env; `and` / `or` evaluate their right
+    operand only when the left one does not decide (X language definition).  env maps variable names, 'call:<name>' and
+    'sub:<name>' to values."""
+    c = node.cls.split('::')[-1]
+    if c == 'CallExpr':
+        nm = node.fields['name'][1] if isinstance(node.fields.get('name'), tuple) else '?'
+        eff = []
+        a = node.fields.get('args')
+        for x in (a.items if isinstance(a, Vec) else []):
+            eff += eval_trace(X, x, env)[1]
+        return env.get('call:' + nm, 1), sorted(eff + ['call ' + nm])
+    if c == 'ArraySubscriptExpr':
+        nm = node.fields['name'][1] if isinstance(node.fields.get('name'), tuple) else '?'
+        iv, eff = eval_trace(X, node.fields['expr'], env)
+        return env.get('sub:' + nm, 1), sorted(eff + ['%s[%d]' % (nm, iv)])
+    if c == 'BinaryOpExpr':
+        op = X.rtok[node.fields['op'].lo]
+        a, ea = eval_trace(X, node.fields['LHS'], env)
+        if op == 'AND' and a == 0:
+            return 0, ea
+        if op == 'OR' and a != 0:
+            return a, ea
+        b, eb = eval_trace(X, node.fields['RHS'], env)
+        return x_binop(op, a, b), sorted(ea + eb)
+    if c == 'UnaryOpExpr':
+        v, e = eval_trace(X, node.fields['element'], env)
+        return x_unop(X.rtok[node.fields['op'].lo], v), e
+    return X.meaning(node, env), []
+
+
+def rule_rewrite_evaluations(rep, idx, rid='R10'):
+    rep.rule(rid, 'rewriting keeps what is evaluated: for every operator over operands that are variables, calls and array elements, the '
+             'expression OptimiseExpr puts in place of the original evaluates the same calls and array elements for every value of '
+             'the leaves -- in particular the right operand of `and` / `or` stays unevaluated when the left one decides (an extra '
+             'evaluation is a lost short-circuit: a side effect, or a subscript the program guarded)', floor=60)
+    fb = idx.func('xcmp::OptimiseExpr::visitPost', 'BinaryOpExpr')
+    where = pos(fb.node) + ' xcmp::OptimiseExpr::visitPost(BinaryOpExpr&)'
+    kinds = [('var', lambda X, n: X.var(n)), ('call', lambda X, n: X.call('f_' + n, [X.num(1)])), ('sub', lambda X, n: X.sub('arr_' + n, X.var('i')))]
+    for op in BINOPS:
+        for (ln, lmk), (rn, rmk) in itertools.product(kinds, repeat=2):
+            if ln == 'var' and rn == 'var':
+                continue
+            X = XModel(idx)
+            node = X.const_prop(X.binop(op, lmk(X, 'a'), rmk(X, 'b')))
+            orig = clone(X, node)
+            opt = X.visitor('xcmp::OptimiseExpr')
+            key = '%s:%s,%s' % (op, ln, rn)
+            try:
+                X.visit_post(opt, node)
+            except NeedSplit as e:
+                rep.undecided(rid, key, 'rewrite not uniform: %s' % e, where)
+                continue
+            except Thrown as e:
+                rep.add(rid, key, False, where, 'rewriting fails: %s' % e.what)
+                continue
+            r_ = opt.fields.get('exprReplacement')
+            new = r_ if isinstance(r_, Obj) else node
+            bad = None
+            dom = DB if op in LOGICAL else D
+            for va, vb in itertools.product(dom, repeat=2):
+                env = {'a': va, 'b': vb, 'i': 3, 'call:f_a': va, 'call:f_b': vb, 'sub:arr_a': va, 'sub:arr_b': vb}
+                try:
+                    v0, e0 = eval_trace(X, orig, env)
+                    v1, e1 = eval_trace(X, new, env)
+                except (KeyError, AttributeError, TypeError) as e:
+                    bad = 'malformed tree after rewriting (%r)' % (e,)
+                    break
+                if e0 != e1:
+                    bad = '%s is rewritten to %s: for left=%d right=%d the original evaluates %s, the replacement %s' % (
+                        X.show(orig), X.show(new), va, vb, e0 or 'nothing', e1 or 'nothing')
+                    break
+            rep.add(rid, key, bad is None, where, bad or '%s -> %s evaluates the same calls and elements' % (X.show(orig), X.show(new)))
 
 
 def rule_overflow(rep, idx):
@@ -417,6 +497,7 @@ def run(rep, tier):
     rule_fold(rep, idx)
     rule_fold_effects(rep, idx)
     rule_rewrite(rep, idx)
+    rule_rewrite_evaluations(rep, idx)
     rule_overflow(rep, idx)
     from . import c01
     c01.rule_register_discipline(rep, idx, 'R4')
